@@ -30,6 +30,11 @@ func NewMD(cfg string) goldmark.Markdown {
 			exts = append(exts, extension.GFM)
 		case "table":
 			exts = append(exts, extension.Table)
+		case "tableattr":
+			// cell alignment pinned to the align attribute (does not vary with XHTML)
+			exts = append(exts, extension.NewTable(extension.WithTableCellAlignMethod(extension.TableCellAlignAttribute)))
+		case "tablestyle":
+			exts = append(exts, extension.NewTable(extension.WithTableCellAlignMethod(extension.TableCellAlignStyle)))
 		case "strike":
 			exts = append(exts, extension.Strikethrough)
 		case "linkify":
